@@ -439,6 +439,13 @@ fn struct_cases(files: &BTreeMap<u64, FileImg>, rng: &mut Rng, count: usize, out
         vec![Op::Add(Extra::File { name: wal_name(last + 1), content: fake_header_block(rng) })],
         vec![Op::Add(Extra::File { name: wal_name(last + 2), content: garbage(rng, 4 * BLOCK) })],
     ];
+    // 24-byte names that are not 24 characters (a multi-byte character across byte offsets 3..6)
+    for name in crate::names::straddling_names() {
+        let cut = name.iter().position(|byte| *byte >= 0x80).unwrap_or(0);
+        if (1..=4).contains(&cut) {
+            fixed.push(vec![Op::Add(Extra::File { name, content: garbage(rng, 100) })]);
+        }
+    }
     if numbers.len() >= 2 {
         let middle = numbers[numbers.len() / 2];
         fixed.push(vec![Op::RemoveFile { file: middle }]);
